@@ -284,6 +284,21 @@ def run_assembly(mat, ctx=None, classes=None, records=None, kwargs=True, inspect
         vrec, mrecs = records
     vec = V(vrec)
     mods = [Mi(r) for Mi, r in zip(Ms, mrecs)]
+    # own stream: now and then the entities a user assembles are copies of the ones first made (copy.copy keeps the record,
+    # copy.deepcopy - only for records made here - duplicates it)
+    rc_ = gen.rng_for("entity-copies", mat.get("id"), mat["enzyme"], mat["vector"]["seq"][:16])
+    u = rc_.random()
+    if u < 0.1:
+        import copy
+        vec, mods = copy.copy(vec), [copy.copy(m) for m in mods]
+        if ctx is not None:
+            ctx.count("assemblies_of_copied_entities")
+    elif u < 0.16 and records is None:
+        import copy
+        vec, mods = copy.deepcopy(vec), [copy.deepcopy(m) for m in mods]
+        vrec, mrecs = vec.record, [m.record for m in mods]
+        if ctx is not None:
+            ctx.count("assemblies_of_copied_entities")
     if inspect_first is None:
         inspect_first = sum(map(ord, str(mat.get("id", "")))) % 3 == 0
     if inspect_first:
